@@ -1,5 +1,6 @@
 import SynKitModel.GraphMatcherEngine
 import SynKitProofs.GraphMatcherEngineLemmas
+import SynKitProofs.FindIsoLemmas
 /-!
 # C07 — isomorphism verdicts and embeddings are correct; pre-filters never change them
 
@@ -371,6 +372,114 @@ theorem isomorphic_iff (e : Engine) (g1 g2 : LGraph) (h1 : g1.WF) (h2 : g2.WF) :
   rw [if_pos hlen]
   exact (isoDecide_iff e.sel g1 g2 h2).2 ⟨m, hm⟩
 
+
+/-! ### `find_graph_isomorphism`, certificates for large inputs
+
+`SynKitModel/FindIso.lean`.  On graphs that are too large for the enumerating engine (more than 256 nodes or
+edges — beyond CPython's small-integer cache) the harness plants the answer and lets Lean check a certificate:
+a mapping (`isIsoB` / `isInducedB`, no search) for a positive verdict, an invariant (`isoInvariants` /
+`containInvariants`) for a negative one.  The theorems below say that a checked certificate fixes the verdict
+the specification demands. -/
+
+/-- **The mapping checker is the specification**: `isIsoB` accepts exactly the label-preserving bijections. -/
+theorem isIsoB_iff (sel : Sel) (H P : LGraph) (m : Mapping) : isIsoB sel H P m = true ↔ IsIso sel H P m :=
+  isIsoB_iff' sel H P m
+
+/-- `isInducedB` accepts exactly the induced embeddings. -/
+theorem isInducedB_iff (sel : Sel) (H P : LGraph) (m : Mapping) : isInducedB sel H P m = true ↔ IsInduced sel H P m :=
+  isInducedB_iff' sel H P m
+
+/-- `isMonoB` accepts exactly the monomorphisms. -/
+theorem isMonoB_iff (sel : Sel) (H P : LGraph) (m : Mapping) : isMonoB sel H P m = true ↔ IsMono sel H P m :=
+  isMonoB_iff' sel H P m
+
+/-- **A checked mapping fixes the engine's verdict**: if `isIsoB` accepts some mapping, `isomorphic(g1, g2)` must
+answer `True` (WL filter on or off). -/
+theorem isomorphic_of_certificate (e : Engine) (g1 g2 : LGraph) (h1 : g1.WF) (h2 : g2.WF) (m : Mapping)
+    (h : isIsoB e.sel g1 g2 m = true) : isomorphicPure e g1 g2 = true :=
+  (isomorphic_iff e g1 g2 h1 h2).2 ⟨m, (isIsoB_iff e.sel g1 g2 m).1 h⟩
+
+/-- A checked induced embedding makes `get_mappings` return something (`max_mappings ≠ 0`). -/
+theorem get_mappings_of_certificate (e : Engine) (host pat : LGraph) (hH : host.WF) (hP : pat.WF)
+    (hk : e.maxMappings ≠ some 0) (m : Mapping) (h : isInducedB e.sel host pat m = true) :
+    getMappingsPure e host pat ≠ [] :=
+  (get_mappings_nonempty_iff_contained e host pat hH hP hk).2 ⟨m, (isInducedB_iff e.sel host pat m).1 h⟩
+
+/-- **Invariants certify non-isomorphism**: when node count, edge count, degree sequence, base-label histogram or
+refined WL-1 histogram differ, no label-preserving bijection exists. -/
+theorem no_iso_of_invariants (sel : Sel) (H P : LGraph) (hH : H.WF) (hP : P.WF) (h : isoInvariants sel H P = false) :
+    ¬ ∃ m, IsIso sel H P m := by
+  rintro ⟨m, hm⟩
+  rw [isoInvariants_of_iso' sel H P m hH hP hm] at h
+  cases h
+
+/-- Invariants certify non-containment (no monomorphism, a fortiori no induced embedding). -/
+theorem not_contained_of_invariants (sel : Sel) (H P : LGraph) (hH : H.WF) (hP : P.WF)
+    (h : containInvariants sel H P = false) : ¬ ∃ m, IsMono sel H P m := by
+  rintro ⟨m, hm⟩
+  rw [containInvariants_of_mono' sel H P m hH hP hm] at h
+  cases h
+
+/-- The engine answers `False` when an invariant differs. -/
+theorem isomorphic_false_of_invariants (e : Engine) (g1 g2 : LGraph) (h1 : g1.WF) (h2 : g2.WF)
+    (h : isoInvariants e.sel g1 g2 = false) : isomorphicPure e g1 g2 = false := by
+  cases hv : isomorphicPure e g1 g2 with
+  | false => rfl
+  | true => exact absurd (isomorphic_sound e g1 g2 h1 h2 hv) (no_iso_of_invariants e.sel g1 g2 h1 h2 h)
+
+/-- **`find_graph_isomorphism` returns a valid mapping**: a `G1 → G2` bijection preserving adjacency and the
+compared attributes (with their defaults). -/
+theorem find_iso_valid (d fast : Bool) (g1 g2 : LGraph) (h1 : g1.WF) (m : Mapping)
+    (h : findGraphIsomorphism d fast g1 g2 = some m) : IsIso (findSel d) (findPrep d g2) (findPrep d g1) m := by
+  unfold findGraphIsomorphism at h
+  split at h
+  · cases h
+  · split at h
+    · rename_i hlen
+      have hmem := List.mem_of_mem_head? (Option.mem_def.2 h)
+      refine ⟨(mem_allInduced _ _ _ (findPrep_WF d g1 h1) m).1 hmem, ?_⟩
+      rw [findPrep_nodes_length, findPrep_nodes_length]; exact hlen
+    · cases h
+
+/-- **C07, `find_graph_isomorphism`: a mapping is returned exactly when a bijection exists**, with the quick
+invariants on or off. -/
+theorem find_iso_iff (d fast : Bool) (g1 g2 : LGraph) (h1 : g1.WF) (h2 : g2.WF) :
+    (findGraphIsomorphism d fast g1 g2).isSome = true ↔ ∃ m, IsIso (findSel d) (findPrep d g2) (findPrep d g1) m := by
+  constructor
+  · intro h
+    obtain ⟨m, hm⟩ := Option.isSome_iff_exists.1 h
+    exact ⟨m, find_iso_valid d fast g1 g2 h1 m hm⟩
+  · rintro ⟨m, hm⟩
+    have hfast := fastInvariants_of_iso d _ g1 g2 h1 h2 m hm
+    have hlen : g2.nodes.length = g1.nodes.length := by
+      have := hm.2
+      rw [findPrep_nodes_length, findPrep_nodes_length] at this; exact this
+    have hmem := (mem_allInduced _ _ _ (findPrep_WF d g1 h1) m).2 hm.1
+    unfold findGraphIsomorphism
+    rw [hfast]
+    simp only [Bool.not_true, Bool.and_false, Bool.false_eq_true, if_false, if_pos hlen]
+    obtain ⟨x, xs, hx⟩ := List.exists_cons_of_ne_nil (List.ne_nil_of_mem hmem)
+    rw [hx]; rfl
+
+/-- **The quick invariants never change the verdict** of `find_graph_isomorphism`. -/
+theorem find_iso_fast_irrelevant (d : Bool) (g1 g2 : LGraph) (h1 : g1.WF) (h2 : g2.WF) :
+    (findGraphIsomorphism d true g1 g2).isSome = (findGraphIsomorphism d false g1 g2).isSome := by
+  rw [Bool.eq_iff_iff, find_iso_iff d true g1 g2 h1 h2, find_iso_iff d false g1 g2 h1 h2]
+
+/-- A checked mapping `G1 → G2` makes `find_graph_isomorphism` return a mapping. -/
+theorem find_iso_of_certificate (d fast : Bool) (g1 g2 : LGraph) (h1 : g1.WF) (h2 : g2.WF) (m : Mapping)
+    (h : isIsoB (findSel d) (findPrep d g2) (findPrep d g1) m = true) : (findGraphIsomorphism d fast g1 g2).isSome = true :=
+  (find_iso_iff d fast g1 g2 h1 h2).2 ⟨m, (isIsoB_iff _ _ _ m).1 h⟩
+
+/-- `find_graph_isomorphism` returns `None` when an invariant of the (defaulted) graphs differs. -/
+theorem find_iso_none_of_invariants (d fast : Bool) (g1 g2 : LGraph) (h1 : g1.WF) (h2 : g2.WF)
+    (h : isoInvariants (findSel d) (findPrep d g2) (findPrep d g1) = false) : findGraphIsomorphism d fast g1 g2 = none := by
+  cases hv : findGraphIsomorphism d fast g1 g2 with
+  | none => rfl
+  | some m =>
+    exact absurd ⟨m, find_iso_valid d fast g1 g2 h1 m hv⟩
+      (no_iso_of_invariants _ _ _ (findPrep_WF d g2 h2) (findPrep_WF d g1 h1) h)
+
 /-! ### Non-vacuity -/
 section Examples
 def cN (e : String) (q : Int) : Attrs := [("element", .str e), ("charge", .num q)]
@@ -407,6 +516,21 @@ def exPath : LGraph := { nodes := [(0, cN "C" 0), (1, cN "C" 0), (2, cN "C" 0)],
 example : exTri.WF ∧ exPath.WF := by decide
 example : allMonos exEng.sel exTri exPath ≠ [] ∧ allInduced exEng.sel exTri exPath = [] ∧
     preCheckPure exEng exTri exPath = false := by decide
+/-- `find_graph_isomorphism`: defaults applied (`exHost` carries no `atom_map` / `hcount`), quick invariants on and
+off, the mapping goes `G1 → G2`; the checker accepts it and rejects a wrong one; a one-label edit is certified
+non-isomorphic by the invariants. -/
+example : findGraphIsomorphism true true exHost exHost2 = some [(0, 7), (1, 6), (2, 5)] ∧
+    findGraphIsomorphism true false exHost exHost2 = some [(0, 7), (1, 6), (2, 5)] ∧
+    findGraphIsomorphism false true exHost exHost2 ≠ none ∧
+    findGraphIsomorphism true true exHost exPat = none ∧ findGraphIsomorphism true false exHost exPat = none := by decide
+example : isIsoB (findSel true) (findPrep true exHost2) (findPrep true exHost) [(0, 7), (1, 6), (2, 5)] = true ∧
+    isIsoB (findSel true) (findPrep true exHost2) (findPrep true exHost) [(0, 5), (1, 6), (2, 7)] = false ∧
+    isIsoB (findSel false) exHost2 exHost [(0, 5), (1, 6), (2, 7)] = true := by decide
+def exHost3 : LGraph := { nodes := [(5, cN "O" 0), (6, cN "C" 0), (7, cN "N" 0)],
+                          edges := [(6, 5, [("order", .num 2)]), (7, 6, [("order", .num 2)])] }
+example : exHost3.WF ∧ isoInvariants (findSel true) (findPrep true exHost3) (findPrep true exHost) = false ∧
+    isoInvariants (findSel true) (findPrep true exHost2) (findPrep true exHost) = true ∧
+    findGraphIsomorphism true false exHost exHost3 = none := by decide
 end Examples
 
 end SynKit.GME
